@@ -598,7 +598,11 @@ func (e *Enc) funcWrites(callee *ssa.Function, c *ssa.CallCommon, ws *writeSet, 
 	if isLockNoop(callee.String()) {
 		return
 	}
-	if spec := e.R.forFunc(callee); spec != nil && !spec.PreOnly {
+	// a contract without assigns clause says nothing about the frame: the body does
+	bodyBetter := func(spec *FuncSpec) bool {
+		return !spec.HasAssigns && !spec.Pure && inRepo(callee) && len(callee.Blocks) > 0
+	}
+	if spec := e.R.forFunc(callee); spec != nil && !spec.PreOnly && !bodyBetter(spec) {
 		if c != nil && c.StaticCallee() == callee {
 			e.wsCall = c
 		}
